@@ -50,6 +50,12 @@ func negate(s gen.Stage) gen.Stage {
 	return n
 }
 
+// hasNegation: the line filters and the string label matchers come in pairs of a filter and
+// its negation; the typed comparisons do not (a missing label fails both > and <=).
+func hasNegation(s gen.Stage) bool {
+	return s.Kind == "linefilter" || (s.Pred != nil && s.Pred.Kind == "match")
+}
+
 func withStages(q gen.LogQuery, extra ...gen.Stage) gen.LogQuery {
 	out := q
 	out.Stages = append(append([]gen.Stage(nil), q.Stages...), extra...)
@@ -157,7 +163,10 @@ func c19Check(c C19Case) (res evid.Result) {
 
 	base := r.run(c.Q)
 	qf := r.run(withStages(c.Q, f))
-	qnf := r.run(withStages(c.Q, negate(f)))
+	var qnf map[string]int
+	if hasNegation(f) {
+		qnf = r.run(withStages(c.Q, negate(f)))
+	}
 	qfg := r.run(withStages(c.Q, f, g))
 	qgf := r.run(withStages(c.Q, g, f))
 	qff := r.run(withStages(c.Q, f, f))
@@ -171,7 +180,7 @@ func c19Check(c C19Case) (res evid.Result) {
 	switch {
 	case !msSub(qf, base):
 		res.Violation = evid.Viol("C19/filter-adds", "%s: q|f is not a sub-multiset of q", what)
-	case !msEq(msAdd(qf, qnf), base):
+	case hasNegation(f) && !msEq(msAdd(qf, qnf), base):
 		res.Violation = evid.Viol("C19/negation-partition", "%s: q|f (%d) and q|not f (%d) do not partition q (%d)", what, msSize(qf), msSize(qnf), msSize(base))
 	case !msEq(qfg, qgf):
 		res.Violation = evid.Viol("C19/not-commutative", "%s: q|f|g (%d) differs from q|g|f (%d)", what, msSize(qfg), msSize(qgf))
@@ -207,6 +216,10 @@ func c19Check(c C19Case) (res evid.Result) {
 	}
 	res.Class(f.Kind == "linefilter", "f=linefilter")
 	res.Class(f.Kind == "labelfilter", "f=labelfilter")
+	typed := func(s gen.Stage) bool { return s.Pred != nil && s.Pred.Kind != "match" }
+	res.Class(typed(f) || typed(g), "typed-comparison")
+	res.Class(typed(f) && typed(g), "two-typed-comparisons")
+	res.Class(typed(c.A) || typed(c.B), "typed-in-and/or")
 	res.Class(len(c.Q.Stages) > 0, "prefix-pipeline")
 	res.Class(msSize(base) == 0, "empty-q")
 	res.NonTrivial = msSize(qf) > 0 && msSize(qf) < msSize(base)
@@ -215,6 +228,15 @@ func c19Check(c C19Case) (res evid.Result) {
 }
 
 func c19GenFilter(t *rapid.T, s datagen.Schema, recs []model.Rec, label string) gen.Stage {
+	// A typed comparison (number, duration, bytes, ip); often over a label whose value does
+	// not convert, which keeps the record and marks it with __error__.
+	if rapid.IntRange(0, 4).Draw(t, label+"-typed") == 0 {
+		for i := 0; i < 8; i++ {
+			if p := datagen.GenLeafPred(t, s, 3); p.Kind != "match" {
+				return gen.Stage{Kind: "labelfilter", Pred: p}
+			}
+		}
+	}
 	if rapid.IntRange(0, 2).Draw(t, label+"-kind") == 0 {
 		var fields []datagen.Field
 		fields = append(fields, s.Labels...)
